@@ -47,6 +47,10 @@ func (d DID) String() string {
 		key, _ := mbase.Encode(mbase.Base58BTC, []byte(d.str))
 		return "did:key:" + key
 	}
+	if len(d.str) < MethodOffset {
+		// undefined (or otherwise undecodable) DID
+		return ""
+	}
 	return "did:" + d.str[MethodOffset:]
 }
 
